@@ -47,8 +47,10 @@ func firstRepoFrame(stack string) string {
 
 type anyGen func(g *OGen, r *Rng) any
 
-func genAny(g *OGen, r *Rng, signal int) any {
-	sh := TShape{MaxRes: 2, MaxScopes: 2, MaxSpans: 1 + r.Intn(5)}
+func genAny(g *OGen, r *Rng, signal int) any { return genAnyN(g, r, signal, 1+r.Intn(5)) }
+
+func genAnyN(g *OGen, r *Rng, signal int, maxItems int) any {
+	sh := TShape{MaxRes: 2, MaxScopes: 2, MaxSpans: maxItems}
 	switch signal {
 	case 0:
 		return g.Traces(sh)
